@@ -138,10 +138,17 @@ def runCase (payload : String) : String :=
     -- scripts the per-thread traces are validated in mode `vt` only.
     match natOf events, setup "00" bpops, (list body ",").mapM parseEv with
     | some n, some d, some t =>
-      if script = "-" then
-        let k := (runTrace (Run.init d []) t).susp.length
-        s!"same=1 susp={n * k}" ++ (if k > 0 then "\tnt=1" else "")
-      else "same=1 susp=any\tnt=1"
+      match (list script ",").mapM parseAct with
+      | none => "bad-payload"
+      | some sc =>
+        if script = "-" then
+          let k := (runTrace (Run.init d []) t).susp.length
+          s!"same=1 susp={n * k}" ++ (if k > 0 then "\tnt=1" else "")
+        else if _workers = "1" then
+          -- one worker: one thread runs all executions in order, the script is consumed across them
+          let all := (List.replicate n (t ++ [Ev.finished])).flatten
+          s!"same=1 susp={(runTrace (Run.init d sc) all).susp.length}\tnt=1"
+        else "same=1 susp=any\tnt=1"
     | _, _, _ => "bad-payload"
   | _ => "bad-payload"
 
